@@ -7,10 +7,12 @@ import (
 	"os"
 	"os/exec"
 	"path/filepath"
+	"runtime"
 	"sort"
 	"strings"
 	"time"
 
+	"luahelper-lsp/langserver/check/compiler/parser"
 	"verifharness/lib"
 )
 
@@ -40,12 +42,14 @@ func c01Valid(r *lib.Rng, n int) string {
 
 var c01SpecialLines = []string{"local x = _G", "print(_G", "_G.", "_G.x", "_G[", "_G[\"", "local s = self", "self.", "self:", "require(", "require(\"", "require(\"a.", "dofile(\"",
 	"---@", "---@type ", "---@param ", "---@field ", "--", "...", "a.b.c.", "a:", "(\"s\"):", "#", "::l::", "goto l", "local t = {", "t[#t+1] = ", "x = x..", "x = #", "f(function()",
-	"local _ENV = ", "_ENV.", "string.", "string.format(", "math.", "io.", "os.", "table.insert(", "coroutine.", "package.", "debug.", "utf8.", "local function", "function t.", "function t:", "for i = ", "for k, v in "}
+	"local _ENV = ", "_ENV.", "string.", "string.format(", "math.", "io.", "os.", "table.insert(", "coroutine.", "package.", "debug.", "utf8.", "local function", "function t.", "function t:", "for i = ", "for k, v in ",
+	// text cut inside a multi-byte character (a string, a comment that documents a function, an illegal token)
+	"x = \"\xE4\xB8\"", "local s = '\xF0\x9F\x98'", "y = \"\xE4\"", "-- \xE4\xB8\nfunction foo() end\nfoo()", "-- caf\xC3\nlocal function bar() end\nbar()", "z = \xE4\xB8", "--[[ \xF0\x9F ]] local w = 1"}
 
 func genC01Scenario(seed int64, idx int) c01Scenario {
 	r := lib.NewRng(uint64(seed)).Fork(uint64(idx))
 	sc := c01Scenario{files: map[string]string{}, open: "main.lua"}
-	switch idx % 8 {
+	switch idx % 9 {
 	case 0: // token soup / raw bytes
 		sc.kind = "lua-soup"
 		switch r.Intn(3) {
@@ -163,6 +167,13 @@ func genC01Scenario(seed int64, idx int) c01Scenario {
 			s = "local f = " + strings.Repeat("function() return ", d) + "1" + strings.Repeat(" end", d)
 		}
 		sc.files["main.lua"] = s + "\nprint(x)\n"
+	case 8: // more files than worker goroutines (NumCPU+2): every dispatch loop has to refill its workers
+		sc.kind = "many-files"
+		nf := runtime.NumCPU() + 3 + r.Intn(30)
+		sc.files["main.lua"] = "gvar = 1\nfunction gfun(a) return a end\nGT = { k = 1 }\nprint(gvar, gfun(2), GT.k)\n"
+		for i := 0; i < nf; i++ {
+			sc.files[fmt.Sprintf("f%02d.lua", i)] = fmt.Sprintf("print(gvar, gfun(%d), GT.k)\nlocal function l%d() return gvar end\nprint(l%d)\n", i, i, i)
+		}
 	default: // file events on malformed files
 		sc.kind = "file-events"
 		sc.files["main.lua"] = c01Valid(r, 3)
@@ -185,11 +196,21 @@ func runC01Scenario(sc c01Scenario, idx int, res *lib.Result) {
 			}
 			for i := 0; i <= len(src) && i <= 1500; i++ {
 				lib.Breadcrumb(fmt.Sprintf("C01 scenario %d (%s): the real parser on the first %d bytes of %s:\n%s", idx, sc.kind, i, name, src[:i]))
-				lib.ParseDump([]byte(src[:i]))
+				if _, _, rec := lib.ParseDump([]byte(src[:i])); rec != nil {
+					// the parser's recover() swallowed an internal fault: the analysis of the file is silently abandoned
+					fmt.Printf("FAULT %d the parser recovered from %q on the first %d bytes of %s\n", idx, fmt.Sprint(rec), i, name)
+					return
+				}
 			}
 		}
 	}
 	lib.WriteWorkspace(dir, sc.files)
+	// the same fault inside the server (files analysed at start-up, on open, on every edit)
+	prevHook := parser.VerifRecovered
+	parser.VerifRecovered = func(v interface{}) {
+		fmt.Printf("FAULT %d the parser recovered from %q while the server analysed a file\n", idx, fmt.Sprint(v))
+	}
+	defer func() { parser.VerifRecovered = prevHook }()
 	opts := lib.AllChecksOptions()
 	sess, err := lib.StartSession(dir, opts)
 	if err != nil {
@@ -350,10 +371,11 @@ func runC01(res *lib.Result, tier string, seed int64, args []string) error {
 	if tier == "thorough" {
 		n, batch = 2000, 40
 	}
-	res.Rule = "scenarios run against the real server in child processes (a crash kills only the child; the parent records the scenario that was running and goes on): token soup and raw bytes, mutated and truncated programs (and EVERY prefix of those files through the real parser), annotation soup with enum blocks, cyclic class / alias worlds with indexed access, random luahelper.json files (regex metacharacters, invalid JSON, odd separators), partial unsaved edits, deep nesting (50-1500 levels), file events on malformed files; in every scenario hover, definition, references, completion, signatureHelp, documentHighlight and rename are sent at 3-5 columns of each of the first 14 lines, plus documentSymbol, documentColor and workspace/symbol; a request that does not answer within 15 s is a hang; non-trivial = every scenario; distinct by scenario"
+	res.Rule = "scenarios run against the real server in child processes (a crash kills only the child; the parent records the scenario that was running and goes on): token soup and raw bytes, mutated and truncated programs (and EVERY prefix of those files through the real parser), annotation soup with enum blocks, cyclic class / alias worlds with indexed access, random luahelper.json files (regex metacharacters, invalid JSON, odd separators), partial unsaved edits, deep nesting (50-1500 levels), file events on malformed files, workspaces with more files than worker goroutines; a fault swallowed by the parser's recover() (hook VerifRecovered) is reported as an abandoned analysis; in every scenario hover, definition, references, completion, signatureHelp, documentHighlight and rename are sent at 3-5 columns of each of the first 14 lines, plus documentSymbol, documentColor and workspace/symbol; a request that does not answer within 15 s is a hang; non-trivial = every scenario; distinct by scenario"
 	work := lib.ScratchDir("c01")
 	defer os.RemoveAll(work)
 	kinds := map[string]int{}
+	faulted := map[int]bool{}
 	for from := 0; from < n; from += batch {
 		to := from + batch
 		if to > n {
@@ -376,6 +398,14 @@ func runC01(res *lib.Result, tier string, seed int64, args []string) error {
 				}
 				if strings.HasPrefix(l, "INITERR ") {
 					res.Dist("initialize-answered-with-error")
+				}
+				if strings.HasPrefix(l, "FAULT ") {
+					var idx int
+					fmt.Sscanf(l, "FAULT %d", &idx)
+					if !faulted[idx] {
+						faulted[idx] = true
+						res.AddViolation("internal-fault", "the analysis of a file was silently abandoned: "+l, c01Describe(genC01Scenario(seed, idx)), false)
+					}
 				}
 				if strings.HasPrefix(l, "HANG ") {
 					var idx int
